@@ -21,6 +21,13 @@ INPUTS = {
 }
 
 
+STALE = "/* stale output of an earlier build */\n" * 120
+
+
+def lps_of(n):
+    return {0: [], 1: ["lp1"], 2: ["lp1", "lp2"], 3: ["lp2", "lp1"]}[n]
+
+
 def run(ctx):
     ctx.rule = ("TLC runs the Cli machine for every flag vector (style x --no-charset x --quiet x --no-unicode x 0/1/2 "
                 "--load-path x file/--stdin x stdout/output file) x 8 input classes and prints the expected terminal "
@@ -42,7 +49,7 @@ def run(ctx):
     for c in r.cases:
         ins = INPUTS[c["class"]]
         if ctx.tier == "quick":
-            ins = ins[:1] if (c["flags"]["lps"] == 2 or c["flags"]["nounicode"]) else ins
+            ins = ins[:1] if (c["flags"]["lps"] >= 2 or c["flags"]["nounicode"]) else ins
         for k, text in enumerate(ins):
             runs.append((c, k, text))
     # input files
@@ -59,7 +66,7 @@ def run(ctx):
     for i, (c, k, text) in enumerate(runs):
         fl = c["flags"]
         j = {"id": i, "fs": "std", "style": fl["style"], "charset": not fl["nocharset"], "quiet": fl["quiet"],
-             "unicode": not fl["nounicode"], "load_paths": ["lp1", "lp2"][:fl["lps"]]}
+             "unicode": not fl["nounicode"], "load_paths": lps_of(fl["lps"])}
         if fl["stdin"]:
             j["src"] = text if c["class"] != "missing" else ""
         else:
@@ -77,11 +84,14 @@ def run(ctx):
             args.append("--quiet")
         if fl["nounicode"]:
             args.append("--no-unicode")
-        for lp in ["lp1", "lp2"][:fl["lps"]]:
+        for lp in lps_of(fl["lps"]):
             args += ["--load-path", lp]
         outname = None
         if fl["tofile"]:
             outname = ("nodir-%d/out.css" % i) if c["class"] == "badout" else "out-%d.css" % i
+        if outname and c["class"] != "badout" and i % 2 == 0:
+            with open(os.path.join(base, outname), "w") as fh:      # an older, longer output file is already there
+                fh.write(STALE)
         if fl["stdin"]:
             args.append("--stdin")
         else:
@@ -114,7 +124,7 @@ def run(ctx):
                 if b == b"":
                     return "none"
                 return "css" if css is not None and b == css else "other"
-            outfile = "none" if fstate == "none" else ("empty" if fbytes == b"" else chan(fbytes))
+            outfile = "none" if fstate == "none" else ("empty" if fbytes == b"" else ("stale" if fbytes == STALE.encode() else chan(fbytes)))
             stdout = chan(so)
             if css == b"" and c["stdout"] == "css":
                 stdout = "css" if so == b"" else "other"       # an empty stylesheet
